@@ -97,7 +97,7 @@ fn main() {
             let l = sim.k.layout.b();
             let from = sim.outs.len();
             let _ = from;
-            println!("{label:>10} t={} states={:?} queue={} waiting={} oneshot={:?} idle={}", sim.ticks, l.states, l.queue.len(), l.waiting.is_some(), l.oneshot.keys, sim.k.is_idle());
+            println!("{label:>10} t={} states={:?} queue={} waiting={} oneshot={:?} idle={} seq_active={} seq_ticks={} seq={:x?} oseq={:x?}", sim.ticks, l.states, l.queue.len(), l.waiting.is_some(), l.oneshot.keys, sim.k.is_idle(), !sim.k.sequence_state.is_inactive(), sim.k.sequence_state.ticks_until_timeout, sim.k.sequence_state.sequence, sim.k.sequence_state.overlapped_sequence);
         };
         let mut shown = 0;
         for e in &evs {
